@@ -107,6 +107,9 @@ pub enum Case {
     /// dropped; 4 one record with a lower version and another value; 5 a complete older response
     /// (records and tag recorded under an earlier nonce); 6 records in reverse order, honest tag
     Startup { secret: [u8; 32], recs: Vec<Rec>, tamper: u8, pick: u8 },
+    /// the privileged LSS client (`PrivClient`) against an in-process storage server that knows the
+    /// transport secret and misbehaves in generated ways (see c17drv.rs)
+    Driver { ops: Vec<crate::props::c17drv::DOp> },
 }
 
 fn key_strat() -> impl Strategy<Value = String> {
@@ -788,16 +791,17 @@ impl Prop for C17 {
     fn strategy(&self, _tier: Tier) -> BoxedStrategy<Case> {
         let secret32 = any::<[u8; 32]>();
         prop_oneof![
-            2 => (proptest::collection::vec(any::<u8>(), 32..33), key_strat(), version_strat(), value_strat(), vtamper_strat(), any::<bool>())
+            20 => (proptest::collection::vec(any::<u8>(), 32..33), key_strat(), version_strat(), value_strat(), vtamper_strat(), any::<bool>())
                 .prop_map(|(secret, key, version, value, tamper, crypt)| Case::Value { secret, key, version, value, tamper, crypt }),
-            3 => (secret32.clone(), proptest::collection::vec(rec_strat(), 0..6), stamper_strat(), any::<bool>(), any::<bool>())
+            30 => (secret32.clone(), proptest::collection::vec(rec_strat(), 0..6), stamper_strat(), any::<bool>(), any::<bool>())
                 .prop_map(|(secret, recs, tamper, lss_impl, server_tag)| Case::Shared { secret, recs, tamper, lss_impl, server_tag }),
-            2 => (secret32, proptest::collection::vec(rec_strat(), 0..4), any::<[u8; 32]>(), any::<[u8; 32]>(), stamper_strat(), any::<u8>(), prop_oneof![1 => Just(0u8), 1 => 1u8..9])
+            20 => (secret32, proptest::collection::vec(rec_strat(), 0..4), any::<[u8; 32]>(), any::<[u8; 32]>(), stamper_strat(), any::<u8>(), prop_oneof![1 => Just(0u8), 1 => 1u8..9])
                 .prop_map(|(secret, recs, n1, n2, tamper, which, tag_mut)| Case::Nonce { secret, recs, n1, n2, tamper, which, tag_mut }),
-            1 => (any::<[u8; 32]>(), (0u64..4, 0u32..3), (0u64..4, 0u32..3), 0u8..4, any::<bool>())
+            10 => (any::<[u8; 32]>(), (0u64..4, 0u32..3), (0u64..4, 0u32..3), 0u8..4, any::<bool>())
                 .prop_map(|(seed, t1, t2, k, ldk)| Case::Entropy { seed, t1: (1_700_000_000 + t1.0, t1.1), t2: (1_700_000_000 + t2.0, t2.1), k, ldk }),
-            1 => (any::<[u8; 32]>(), proptest::collection::vec(rec_strat(), 0..5), 0u8..7, any::<u8>())
+            10 => (any::<[u8; 32]>(), proptest::collection::vec(rec_strat(), 0..5), 0u8..7, any::<u8>())
                 .prop_map(|(secret, recs, tamper, pick)| Case::Startup { secret, recs, tamper, pick }),
+            2 => crate::props::c17drv::ops_strat().prop_map(|ops| Case::Driver { ops }),
         ]
         .boxed()
     }
@@ -809,6 +813,7 @@ impl Prop for C17 {
             Case::Nonce { secret, recs, n1, n2, tamper, which, tag_mut } => self.run_nonce(secret, recs, n1, n2, tamper, *which, *tag_mut, st, ctx),
             Case::Entropy { seed, t1, t2, k, ldk } => self.run_entropy(seed, *t1, *t2, *k, *ldk, st, ctx),
             Case::Startup { secret, recs, tamper, pick } => self.run_startup(secret, recs, *tamper, *pick, st, ctx),
+            Case::Driver { ops } => crate::props::c17drv::run_driver(ops, st, ctx),
         }
     }
     fn min_nontrivial(&self, tier: Tier) -> usize {
